@@ -39,8 +39,15 @@ def install_sim_addresses(seed, mode="random"):
     counter = [0]
     stride = rng.choice([48, 64, 80, 112, 16])
 
+    addr = {}
+    keep = []
+    real_id = id
+
     def sim_hash(self):
-        a = self.__dict__.get("_sim_addr")
+        # side table keyed by the real address (objects are kept alive, so keys are never re-used); the objects
+        # themselves are not touched (they may use __slots__)
+        k = real_id(self)
+        a = addr.get(k)
         if a is None:
             counter[0] += 1
             if mode == "random":
@@ -49,7 +56,8 @@ def install_sim_addresses(seed, mode="random"):
                 a = base + counter[0] * stride
             else:  # descending
                 a = base - counter[0] * stride
-            self.__dict__["_sim_addr"] = a
+            addr[k] = a
+            keep.append(self)
         return a
 
     ModelPtr.__hash__ = sim_hash
